@@ -9,6 +9,7 @@
 //   - a metadata HTTPS service on 127.0.0.1 answering /metadata with contact_info JSON, and
 //   - a TLS "node" that requests client certificates, records the SNI of the ClientHello, the
 //     client certificate, and every application byte it receives (it answers OPTIONS / STARTUP),
+//
 // builds an astra.Bundle value (exported fields TLSConfig, Host, Port; as LoadBundleZip fills them:
 // RootCAs holding the bundle CA, Certificates holding the client pair, ServerName = Host) and drives
 // the real code.  The bundle host is "localhost" (rows with host = dns; resolved through /etc/hosts
@@ -69,14 +70,14 @@ type Row struct {
 
 // ServerObs is what one TLS server saw.
 type ServerObs struct {
-	Hellos       int      `json:"hellos"`        // ClientHellos received
-	SNIs         []string `json:"snis"`          // SNI of each ClientHello
-	Handshakes   int      `json:"handshakes"`    // handshakes the server completed
-	ClientCertOK int      `json:"client_cert_ok"` // completed handshakes in which the client presented exactly the bundle's certificate
-	ClientCertNo int      `json:"client_cert_none"`
-	ClientCertBad int     `json:"client_cert_other"`
-	AppBytes     int64    `json:"app_bytes"` // application bytes received after the handshake
-	Requests     int      `json:"requests"`  // HTTP requests / CQL frames understood
+	Hellos        int      `json:"hellos"`         // ClientHellos received
+	SNIs          []string `json:"snis"`           // SNI of each ClientHello
+	Handshakes    int      `json:"handshakes"`     // handshakes the server completed
+	ClientCertOK  int      `json:"client_cert_ok"` // completed handshakes in which the client presented exactly the bundle's certificate
+	ClientCertNo  int      `json:"client_cert_none"`
+	ClientCertBad int      `json:"client_cert_other"`
+	AppBytes      int64    `json:"app_bytes"` // application bytes received after the handshake
+	Requests      int      `json:"requests"`  // HTTP requests / CQL frames understood
 }
 
 type Result struct {
@@ -88,11 +89,11 @@ type Result struct {
 	ResolveOK  bool       `json:"resolve_ok"`
 	ResolveErr string     `json:"resolve_err,omitempty"`
 	Endpoints  []string   `json:"endpoints,omitempty"`
-	Connects   int        `json:"connects"`    // connection attempts on the row's node
-	ConnectOK  int        `json:"connect_ok"`  // attempts for which Connect/ConnectClient returned no error
-	CQLOK      int        `json:"cql_ok"`      // attempts that got a CQL answer (READY / SUPPORTED) from the node
+	Connects   int        `json:"connects"`   // connection attempts on the row's node
+	ConnectOK  int        `json:"connect_ok"` // attempts for which Connect/ConnectClient returned no error
+	CQLOK      int        `json:"cql_ok"`     // attempts that got a CQL answer (READY / SUPPORTED) from the node
 	ConnectErr string     `json:"connect_err,omitempty"`
-	Server     ServerObs  `json:"server"`      // the server carrying the row's chain
+	Server     ServerObs  `json:"server"`          // the server carrying the row's chain
 	Other      *ServerObs `json:"other,omitempty"` // the (always valid) metadata service of node rows
 	Infra      string     `json:"infra,omitempty"`
 	ChainLen   int        `json:"chain_len"`
@@ -108,8 +109,8 @@ type keyCert struct {
 
 type pki struct {
 	bundleCA, bundleInt, bundleIntExpired, otherCA, client keyCert
-	serial                               int64
-	mu                                   sync.Mutex
+	serial                                                 int64
+	mu                                                     sync.Mutex
 }
 
 func (p *pki) nextSerial() *big.Int {
